@@ -6,6 +6,10 @@ import common as C
 MASK = (1 << 64) - 1
 
 
+UNITS = []      # units whose private helper functions `ev` may evaluate through (set by the rule module)
+_depth = [0]
+
+
 class Unknown(Exception):
     pass
 
@@ -89,11 +93,48 @@ def ev(n, env, methods=None):
             return max(args)
         if p.endswith("cmp::min"):
             return min(args)
+        # a pure private helper of the analysed crate (`padding_to_align(offset, align)`): its body evaluated with the arguments bound to its parameters
+        for u in UNITS:
+            g = u.norm.get(C.norm_path(n.get("p") or p))
+            if g and "hir" in g and _depth[0] < 4:
+                ps = [q.get("n") for q in g["hir"].get("params") or [] if isinstance(q, dict) and q.get("k") == "bind"]
+                if len(ps) == len(args):
+                    _depth[0] += 1
+                    try:
+                        return ev(g["hir"]["body"], dict(zip(ps, args)), methods)
+                    finally:
+                        _depth[0] -= 1
         raise Unknown("call " + p)
     if k == "if":
         c = ev(n["c"], env, methods)
         return ev(n["t"], env, methods) if c else ev(n["e"], env, methods)
     if k == "block" and not n.get("s") and n.get("e"):
+        return ev(n["e"], env, methods)
+    if k == "block" and n.get("e") is not None and all(isinstance(x, dict) and x.get("k") == "letst" and isinstance(x.get("pat"), dict) and x["pat"].get("k") == "bind" and x.get("init") is not None
+                                                    and x.get("els") is None for x in n["s"]):
+        env2 = dict(env)
+        for x in n["s"]:
+            env2[x["pat"]["n"]] = ev(x["init"], env2, methods)
+        return ev(n["e"], env2, methods)
+    if k == "block" and n.get("s") and n.get("e") is not None:
+        # statements that return early: `if c { return v; }` followed by the rest
+        env2 = dict(env)
+        for x in n["s"]:
+            x0 = C.strip(x["e"]) if x.get("k") == "semi" else C.strip(x)
+            if x.get("k") == "letst" and isinstance(x.get("pat"), dict) and x["pat"].get("k") == "bind" and x.get("init") is not None and x.get("els") is None:
+                env2[x["pat"]["n"]] = ev(x["init"], env2, methods)
+            elif x0.get("k") == "if" and not x0.get("e"):
+                if ev(x0["c"], env2, methods):
+                    t_ = C.strip(x0["t"])
+                    items = (t_.get("s") or []) + ([t_["e"]] if t_.get("e") is not None else [])
+                    r0 = C.strip(items[0]["e"]) if items and items[0].get("k") == "semi" else (C.strip(items[0]) if items else {})
+                    if len(items) == 1 and r0.get("k") == "ret" and r0.get("e") is not None:
+                        return ev(r0["e"], env2, methods)
+                    raise Unknown("statement branch")
+            else:
+                raise Unknown("block with statements")
+        return ev(n["e"], env2, methods)
+    if k == "ret" and n.get("e") is not None:
         return ev(n["e"], env, methods)
     raise Unknown("node " + str(k))
 
